@@ -74,6 +74,12 @@ func C07Catalogue() []*Request {
 	out := FeatureCatalogue()
 	out = append(out, TsTypeCatalogue()...)
 	out = append(out, TsKindsRequest(), SiblingRequest(), TsHeaderRequest())
+	// every annotated construct in every context (child, list element, map value, oneof variant, flatten child, ...)
+	for _, r := range CodecCatalogue() {
+		if hasTag(r, "contexts") {
+			out = append(out, r)
+		}
+	}
 	for _, r := range RouteCatalogue() {
 		if r.ID == "rtmulti" || r.ID == "rt1" {
 			out = append(out, r)
